@@ -305,6 +305,11 @@ def check_invalid(run, what, r, tag, forced_status=None):
 
 def run_case(case, want_readback=True):
     """Executes case (op = read | write) and returns a Run with findings for all properties."""
+    with harness.entropy(case.get("entropy")):
+        return _run_case(case, want_readback)
+
+
+def _run_case(case, want_readback):
     run = Run()
     p, mem0, tgt = build_target(case)
     run.tgt = tgt
@@ -315,6 +320,12 @@ def run_case(case, want_readback=True):
         run.classes.add("open-failed")
         return run
     run.plc = plc
+    if case.get("double_open"):
+        # open() on an open driver is a no-op that must not disturb the negotiated state
+        run.classes.add("double-open")
+        ok, r = call(run, plc.open, "reopen")
+        if ok and r is not True:
+            run.add("C10", "open.twice.result", f"second open() returned {r!r}")
     try:
         conn = next(iter(tgt.connections.values()), None)
         run.stats["conn_size"] = conn["size"] if conn else None
